@@ -244,6 +244,28 @@ class World:
             world.task_tag[id(task)] = getattr(tag, 'name', None)
             return real(task, tag=tag, block=block)
         be.submit = submit
+        # C10: "a submitter blocks, rather than fails or overruns, while a stage
+        # is full" - the manager's stages must never refuse a task
+        from s3transfer.utils import NoResourcesAvailable
+        for stage in ('_submission_executor', '_request_executor', '_io_executor'):
+            self._guard_stage(getattr(self.manager, stage), stage.strip('_'),
+                              NoResourcesAvailable)
+
+    def _guard_stage(self, be, stage, exc_cls):
+        world = self
+        inner = be.submit
+
+        def submit(task, tag=None, block=True):
+            try:
+                return inner(task, tag=tag, block=block)
+            except exc_cls as e:
+                world.violation('C10', 'submit-failed-instead-of-blocking',
+                                'the %s refused %s with %r instead of making the '
+                                'submitter wait (block=%r)'
+                                % (stage, type(task).__name__, e, block),
+                                {'stage': stage})
+                raise
+        be.submit = submit
 
     def _tag_enter(self, task):
         name = self.task_tag.get(id(task), None) if hasattr(self, 'task_tag') else None
@@ -552,7 +574,7 @@ class World:
                         pred = lambda: coord.status == 'running'            # noqa: E731
                     else:
                         pred = lambda: coord.status in ('success', 'failed')  # noqa: E731
-                    sim.park_at_next_point(pred, 400)
+                    sim.park_at_next_point(pred, 400, a[4] if len(a) > 4 else 0)
                     self.probe('cancel-held-until-' + hold)
                 try:
                     t['future'].cancel()
@@ -569,7 +591,8 @@ class World:
                 if kw.get('cancel'):
                     self._arm_mass_cancel('shutdown', kw.get('cancel_msg', ''),
                                           'CancelledError',
-                                          a[2] if len(a) > 2 else True)
+                                          a[2] if len(a) > 2 else True,
+                                          a[3] if len(a) > 3 else None)
                 try:
                     self.manager.shutdown(**kw)
                     self.shutdown_return = sim.stamp()
@@ -600,7 +623,7 @@ class World:
                 m = str(exc) or repr(exc)
                 self._arm_mass_cancel(
                     'with', m, 'CancelledError' if kind == 'kbi' else 'FatalError',
-                    a[3] if len(a) > 3 else True)
+                    a[3] if len(a) > 3 else True, a[4] if len(a) > 4 else None)
                 raise exc
             elif op == 'fresh':
                 t = self._prepare_transfer(a[1])
@@ -616,7 +639,7 @@ class World:
     def _calls_of(self, tidx):
         return sum(1 for r in self.s3.log if r.get('t') == tidx)
 
-    def _arm_mass_cancel(self, how, msg, exc_type, atomic):
+    def _arm_mass_cancel(self, how, msg, exc_type, atomic, hold=None):
         """The driver is about to cancel everything through the manager.  The
         snapshot of every transfer's status is taken when the controller's
         cancel() is entered (harness-side wrapper); with `atomic` the driver's
@@ -624,7 +647,7 @@ class World:
         snapshot is the exact state each coordinator is cancelled in."""
         self.dirty = True
         self._pending_mass = {'how': how, 'msg': msg, 'exc_type': exc_type,
-                              'atomic': atomic}
+                              'atomic': atomic, 'hold': hold}
         self._wrap_controller()
         if atomic:
             self.sim.begin_atomic()
@@ -669,6 +692,24 @@ class World:
             self.cancel_events.append(ev)
             evs.append(ev)
         self._mass_evs = evs
+        hold = pend.get('hold')
+        if hold and not pend['atomic'] and self.transfers:
+            # [state, victim index, scheduling points to skip]: the driver is
+            # held somewhere inside the controller's cancel loop until the
+            # victim transfer reached the state
+            kind, victim, skip = hold
+            vt = self.transfers[victim % len(self.transfers)]
+            if vt['future'] is not None:
+                coord = vt['future']._coordinator
+                tidx = vt['idx']
+                if kind == 'inflight':
+                    pred = lambda: self.open_requests_of(tidx) > 0      # noqa: E731
+                elif kind == 'running':
+                    pred = lambda: coord.status == 'running'            # noqa: E731
+                else:
+                    pred = lambda: coord.status in ('success', 'failed')  # noqa: E731
+                sim.park_at_next_point(pred, 400, skip)
+                self.probe('mass-cancel-held-until-' + kind)
 
     def _mass_cancel_exit(self):
         sim = self.sim
